@@ -532,6 +532,24 @@ fn huge_geometries(ctx: &Ctx) {
                         want.insert(want_pages - 1);
                         bm.mark_dirty(0, 1);
                         want.insert(0);
+                        // the very last address, directly and through slices whose base and
+                        // offset add up to it in every way
+                        if top / p < want_pages {
+                            bm.reset_addr_range(top, 1);
+                            want.remove(&(top / p));
+                            let variant = (b % 7 + route) % 5;
+                            match variant {
+                                0 => bm.set_addr_range(top, 1),
+                                1 => bm.slice_at(0).mark_dirty(top, 1),
+                                2 => bm.slice_at(top).mark_dirty(0, 1),
+                                3 => bm.slice_at(1 << 63).mark_dirty(top - (1 << 63), 5),
+                                _ => bm.slice_at(top - 1).slice_at(1).mark_dirty(0, usize::MAX),
+                            }
+                            want.insert(top / p);
+                            if !bm.is_addr_set(top) {
+                                errs.push(format!("the page of address usize::MAX is clean after a mark of that address (variant {})", variant));
+                            }
+                        }
                         for k in 0..want_pages.min(70) {
                             if bm.is_bit_set(k) != want.contains(&k) {
                                 errs.push(format!("page {} set = {}, expected {}", k, bm.is_bit_set(k), want.contains(&k)));
